@@ -87,8 +87,8 @@ ApplyFiber(f, a, lvl) ==      \* f: the addressed fiber, lvl: levels below it (1
          LET n  == Len(f.e)
              e2 == [i \in 1..n |-> <<CoordFn(a.fn, i - 1, f.e[i][1], n), f.e[i][2]>>]
          IN Outcome(Fib(SortByCoord(e2)), "ok")
-    [] a.op = "updpayloads" ->   \* applied to every stored element
-         Outcome(Fib([i \in 1..Len(f.e) |-> <<f.e[i][1], Leaf(ValFn(a.fn, f.e[i][2].v))>>]), "ok")
+    [] a.op = "updpayloads" ->   \* applied to the elements iteration presents (non-empty ones), each at its own position
+         Outcome(Fib([i \in 1..Len(f.e) |-> IF IsEmptyP(f.e[i][2], 0) THEN f.e[i] ELSE <<f.e[i][1], Leaf(ValFn(a.fn, f.e[i][2].v))>>]), "ok")
 
 WriteVal(kind, old, v) == CASE kind = "assign" -> v [] kind = "add" -> old + v [] kind = "mul" -> old * v
 
